@@ -87,3 +87,26 @@ func init() {
 		modelEffects["sync/atomic.Add"+ty] = eff
 	}
 }
+
+func init() {
+	// ---- go.uber.org/atomic.Uint64 (opaque Int): sequential semantics -----
+	u64 := func(fn *ssa.Function) types.Type { return types.Typ[types.Uint64] }
+	models["(*go.uber.org/atomic.Uint64).Load"] = func(x *Exec, st *State, fr *Frame, fn *ssa.Function, args []Value, pos token.Pos) []Outcome {
+		v := x.load(st, args[0], pos)
+		r := Value{K: KInt, T: u64(fn), S: v.S}
+		x.assumeWF(st, r)
+		return single(st, r)
+	}
+	models["(*go.uber.org/atomic.Uint64).Store"] = func(x *Exec, st *State, fr *Frame, fn *ssa.Function, args []Value, pos token.Pos) []Outcome {
+		t := pointee(args[0].T)
+		x.store(st, args[0], Value{K: KOpaque, T: t, S: args[1].S}, pos)
+		return single(st)
+	}
+	models["(*go.uber.org/atomic.Uint64).Inc"] = func(x *Exec, st *State, fr *Frame, fn *ssa.Function, args []Value, pos token.Pos) []Outcome {
+		t := pointee(args[0].T)
+		v := x.load(st, args[0], pos)
+		nv := wrapInt(mkAdd(v.S, "1"), 64, false)
+		x.store(st, args[0], Value{K: KOpaque, T: t, S: nv}, pos)
+		return single(st, Value{K: KInt, T: u64(fn), S: nv})
+	}
+}
